@@ -128,6 +128,11 @@ func (r *Runner) Resolve(ctx context.Context, v Expression) (result interface{},
 func try2Float64(v interface{}) interface{} {
 	switch n := v.(type) {
 	case *decimal.Big:
+		// Big.Float64 is only correctly rounded on its fast path (small
+		// coefficient and scale); the exact decimal string always is.
+		if f, err := strconv.ParseFloat(n.String(), 64); err == nil || errors.Is(err, strconv.ErrRange) {
+			return f
+		}
 		r, _ := n.Float64()
 		return r
 	}
